@@ -16,7 +16,7 @@ func init() { register("C13", checkC13) }
 func checkC13(c *an.Ctx) {
 	c.Rule("C13.1", "per-job deadline (E2/E5): in Execute, when job.Timeout is set the interpreter runs under context.WithTimeout(<ctx parameter>, *job.Timeout) created in that call, else under the parameter; the derived context is not stored; its cancel function runs on every exit")
 	c.Rule("C13.2", "the timeout is on every job kind (E4): CompileCommand stores its timeout parameter in Job.Timeout, all its callers pass Task.Timeout, and every Job built on the way from CompileTask carries a Timeout")
-	c.Rule("C13.3", "expiry is fatal (E2): rows 'not an exit status' of the job-walk table (with and without allow_failure) and the hook tables; Execute returns the interpreter's error unchanged, so an expired deadline cannot be taken for an exit status")
+	c.Rule("C13.3", "expiry is fatal (E2): rows 'not an exit status' of the job-walk table (with and without allow_failure) and the hook tables; Execute returns the interpreter's error unchanged, so an expired deadline cannot be taken for an exit status; the interpreter runs programs with the library's default exec handler (option table of C12.5), which reports a program killed at the deadline with the context's error, not with a status")
 	c.Rule("C13.4", "decoding (E5): the one mapstructure decoder has StringToTimeDurationHookFunc among its hooks; taskDefinition.Timeout is *time.Duration and buildTask copies it unchanged")
 	c.NotDecided = append(c.NotDecided, "every timing aspect (how soon the process dies, children ignoring SIGINT, command substitutions swallowing the deadline): all inside mvdan.cc/sh")
 	p := c.P
@@ -36,15 +36,11 @@ func checkC13(c *an.Ctx) {
 
 	// C13.2
 	okStore := false
-	an.EachInstr(cc, func(in ssa.Instruction) {
-		if st, ok := in.(*ssa.Store); ok {
-			if fa, ok := st.Addr.(*ssa.FieldAddr); ok && an.TypeField(fa) == "Job.Timeout" {
-				if ccr.isRole(st.Val, "timeout") {
-					okStore = true
-				}
-			}
+	for _, g := range fieldsGivenIn(p, cc, "Job.Timeout") {
+		if ccr.isRole(g.val, "timeout") {
+			okStore = true
 		}
-	})
+	}
 	c.Check(okStore, "C13.2", an.Short(cc)+":Job.Timeout", cc.Pos(), "CompileCommand stores its timeout parameter in the job", "CompileCommand does not store its timeout parameter in Job.Timeout")
 	for _, site := range compileCommandSites(c, r) {
 		toArg := ccr.arg1(site.call, "timeout")
@@ -81,6 +77,35 @@ func checkC13(c *an.Ctx) {
 						has = true
 					}
 				}
+				if !has && fn.Signature.Variadic() {
+					// a constructor that applies functional options: the timeout is its callers' to give
+					sites := 0
+					all := true
+					for _, site := range p.CallSitesOf(fn) {
+						if _, inReach := reach[site.Parent()]; !inReach && site.Parent() != ct {
+							continue
+						}
+						sites++
+						gives := false
+						for _, g := range fieldsGivenIn(p, site.Parent(), "Job.Timeout") {
+							if oc, isCall := g.at.(*ssa.Call); isCall {
+								for _, el := range an.VariadicElems(site.Common().Args[len(site.Common().Args)-1]) {
+									for _, src := range an.Sources(el) {
+										if src == ssa.Value(oc) {
+											gives = true
+										}
+									}
+								}
+							}
+						}
+						if !gives {
+							all = false
+						}
+					}
+					if sites > 0 && all {
+						has = true
+					}
+				}
 				c.Check(has, "C13.2", an.Short(fn)+":Job-literal", a.Pos(), "the job carries a Timeout", "a Job is built on the way from CompileTask without a Timeout: commands compiled through it are never bounded")
 			})
 		}
@@ -91,6 +116,9 @@ func checkC13(c *an.Ctx) {
 
 	// C13.3
 	executeTable(c, r, "C13.3", false)
+	// … nor can the interpreter hand it back as one: programs are run by the library's default handler, which
+	// reports a killed program with the context's error (a handler of the module could turn it into a status)
+	interpOptions(c, "C13.3")
 	checkRunTable(c, "C13.3", map[string]bool{"hooks": true})
 
 	// C13.4
